@@ -5,6 +5,9 @@ use std::time::{Duration, Instant};
 use crate::orch::{conclude, run_workers, CheckSpec, Ctx, Out, Tier, WorkerPlan};
 
 pub mod c01;
+pub mod c04;
+pub mod c07;
+pub mod c08;
 pub mod c14;
 pub mod c20;
 pub mod crash;
@@ -25,6 +28,9 @@ pub fn get(id: &str) -> Option<Check> {
         "C09" => Some(crash::check("C09")),
         "C14" => Some(c14::check()),
         "C20" => Some(c20::check()),
+        "C07" => Some(c07::check()),
+        "C08" => Some(c08::check()),
+        "C04" => Some(c04::check()),
         "C02" => Some(seqchecks::check("C02")),
         "C05" => Some(seqchecks::check("C05")),
         "C12" => Some(seqchecks::check("C12")),
